@@ -264,3 +264,45 @@ Qed.
 (* repr_float answers only for finite non-zero doubles *)
 Lemma repr_float_finite f s : repr_float f = ARes s -> exists sg m e, f = S754_finite sg m e.
 Proof. destruct f as [sg|sg| |sg m e]; try discriminate. intros _. exists sg, m, e. reflexivity. Qed.
+
+(* ================================================================== 4. the boolean recogniser accepts the whole grammar *)
+Lemma nd_cons_nondigit c t : is_d c = false -> nd (c :: t) = true.
+Proof. intros H. cbn. rewrite H. reflexivity. Qed.
+
+Lemma repr_body_ok_pos I F : I <> [] -> all_d I = true -> F <> [] -> all_d F = true -> repr_body_ok (I ++ 46%N :: F) = true.
+Proof.
+  intros NI AI NF AF. unfold repr_body_ok. rewrite (span_d_app I (46%N :: F) AI eq_refl).
+  destruct I as [|i I']; [congruence|]. cbv iota beta.
+  assert (SF : span_d F = (F, [])) by (pose proof (span_d_app F [] AF eq_refl) as X; rewrite app_nil_r in X; exact X).
+  rewrite SF. destruct F as [|f F']; [congruence|]. destruct I'; reflexivity.
+Qed.
+
+Lemma repr_body_ok_exp d F es E : is_d d = true -> all_d F = true -> is_sign es = true -> all_d E = true -> (2 <= length E)%nat ->
+  repr_body_ok (d :: frac F ++ 101%N :: es :: E) = true.
+Proof.
+  intros Hd AF Hs AE LE.
+  assert (X : exp_ok (es :: E) = true).
+  { cbn [exp_ok]. unfold is_sign in Hs. rewrite Hs, AE. cbn [andb]. apply Nat.leb_le. exact LE. }
+  assert (D1 : all_d [d] = true) by (apply all_d_cons; split; [exact Hd|reflexivity]).
+  unfold repr_body_ok. destruct F as [|f F'].
+  - cbn [frac app]. change (d :: 101%N :: es :: E) with ([d] ++ 101%N :: es :: E).
+    rewrite (span_d_app [d] (101%N :: es :: E) D1 eq_refl). cbv iota beta. exact X.
+  - change (d :: frac (f :: F') ++ 101%N :: es :: E) with ([d] ++ 46%N :: (f :: F') ++ 101%N :: es :: E).
+    rewrite (span_d_app [d] (46%N :: (f :: F') ++ 101%N :: es :: E) D1 eq_refl). cbv iota beta.
+    rewrite (span_d_app (f :: F') (101%N :: es :: E) AF eq_refl). cbv iota beta. cbn [length Nat.eqb andb]. exact X.
+Qed.
+
+Theorem repr_ok_complete s : ReprG s -> repr_ok s = true.
+Proof.
+  intros H. inversion H as [neg I F HI DI HF DF E|neg d F es E Hd DF Hs DE HL Eq]; subst; unfold repr_ok; rewrite neg_match.
+  - destruct neg; cbn [sgn app].
+    + cbn [N.eqb Pos.eqb]. apply repr_body_ok_pos; auto.
+    + destruct I as [|i I']; [congruence|]. cbn [app]. pose proof DI as DI'. apply all_d_cons in DI'. destruct DI' as [Hi _].
+      apply is_d_range in Hi. replace (i =? 45)%N with false by lia. apply (repr_body_ok_pos (i :: I') F); auto.
+  - destruct neg; cbn [sgn app].
+    + cbn [N.eqb Pos.eqb]. apply repr_body_ok_exp; auto.
+    + pose proof Hd as Hd'. apply is_d_range in Hd'. replace (d =? 45)%N with false by lia. apply repr_body_ok_exp; auto.
+Qed.
+
+Theorem repr_float_repr_ok f s : repr_float f = ARes s -> repr_ok s = true.
+Proof. intros H. apply repr_ok_complete. exact (repr_float_in_grammar f s H). Qed.
